@@ -191,6 +191,16 @@ func buildReplyTable(P *core.Program, fn *ssa.Function, msgParam int, depth int)
 		}
 		if sub == nil {
 			if !an.IsNilConst(res[1]) {
+				// an EVENT message without an event is refused with an error: no event, no reply owed
+				noEvent := false
+				for _, g := range an.Guards(fn, r.Block()) {
+					if nilEventCond(g) {
+						noEvent = true
+					}
+				}
+				if noEvent {
+					continue
+				}
 				shape = "err"
 			} else if s, ok := replyShape(fn, res[0]); ok {
 				shape = s
@@ -581,6 +591,28 @@ func runDumpAll(c *core.Ctx) {
 			}
 		}
 	}
+	// … or through a bulk variant that is Add repeated: Restore (possibly through a method of the handler)
+	// hands the decoded list to one exported method of the cache that, for every element of its slice
+	// parameter, calls once what Add itself consists of
+	if !okAdd {
+		methods = nil
+		nBulk := 0
+		an.Region(restore, nil, func(o an.Occ) {
+			call, ok := o.In.(*ssa.Call)
+			if !ok {
+				return
+			}
+			n := an.CalleeName(&call.Call)
+			if !strings.Contains(n, "EventCache).") {
+				return
+			}
+			methods = append(methods, n[strings.LastIndex(n, ".")+1:])
+			if b := an.StaticCallee(&call.Call); b != nil && bulkOfAdd(P, b) {
+				nBulk++
+			}
+		})
+		okAdd = nBulk == 1 && len(methods) == 1
+	}
 	c.Check(okAdd && len(methods) == 1, nil, fname(c, restore), "insert-path", P.Pos(restore.Pos()), "Restore inserts every decoded event through EventCache.Add and nothing else", fmt.Sprintf("Restore touches the cache through %v, want exactly one looped Add of each decoded event", methods))
 }
 
@@ -593,6 +625,79 @@ func helperReturns(site *ssa.Call, inner *ssa.Call) bool {
 	for _, rb := range an.ReturnBlocks(h) {
 		rv := an.ReturnValues(an.LastInstr(rb).(*ssa.Return))
 		if len(rv) != 1 || an.Unwrap(rv[0]) != ssa.Value(inner) {
+			return false
+		}
+	}
+	return true
+}
+
+// bulkOfAdd: b is an exported method of EventCache with one slice-of-events parameter that is Add
+// repeated: it ranges over the parameter and, on every iteration whose element is not nil, calls
+// exactly once the function that Add hands its event to (`return c.insert(event)`), with that element;
+// the loop is left only when the slice is exhausted.
+func bulkOfAdd(P *core.Program, b *ssa.Function) bool {
+	add := P.Method(P.Root, "EventCache", "Add")
+	if add == nil || recvTypeName(b) != "EventCache" || len(b.Params) != 2 {
+		return false
+	}
+	// what Add consists of: the one module call that receives its event
+	var body *ssa.Function
+	for _, ci := range calls(add) {
+		call, ok := ci.(*ssa.Call)
+		if !ok {
+			continue
+		}
+		if g := an.StaticCallee(&call.Call); g != nil && P.InModule(g) && recvTypeName(g) == "EventCache" {
+			for _, a := range call.Call.Args[1:] {
+				if an.PathOf(a) == "p:"+add.Params[1].Name() {
+					if body != nil && body != g {
+						return false
+					}
+					body = g
+				}
+			}
+		}
+	}
+	if body == nil {
+		return false
+	}
+	var site *ssa.Call
+	for _, call := range callsTo(b, body) {
+		if site != nil {
+			return false
+		}
+		site = call
+	}
+	if site == nil || !an.InLoop(site.Block()) || len(site.Call.Args) < 2 || an.PathOf(site.Call.Args[1]) != "p:"+b.Params[1].Name()+"[*]" {
+		return false
+	}
+	h := an.LoopHeaderOf(site.Block())
+	if h == nil {
+		return false
+	}
+	loop := an.LoopBlocks(h)
+	for blk := range loop {
+		if _, isRet := an.LastInstr(blk).(*ssa.Return); isRet {
+			return false
+		}
+	}
+	// every way round the loop passes the call, or found the element nil
+	paths, ok := an.IterPaths(h, func(x *ssa.BasicBlock) bool { return !loop[x] }, 256)
+	if !ok {
+		return false
+	}
+	for _, p := range paths {
+		if len(p) < 2 || p[len(p)-1] != h || p.Contains(site.Block()) {
+			continue
+		}
+		skipped := false
+		for _, cd := range p.Conds() {
+			cd = an.NormCond(cd)
+			if bin, ok := cd.V.(*ssa.BinOp); ok && an.IsNilConst(bin.Y) && (bin.Op == token.EQL) == cd.True && strings.HasSuffix(an.PathOf(bin.X), "[*]") {
+				skipped = true
+			}
+		}
+		if !skipped {
 			return false
 		}
 	}
